@@ -165,9 +165,11 @@ func (s *Session) startTransaction(ctx context.Context, opts ...*options.Transac
 	}
 	s.starting = true
 	s.mutex.Unlock()
+	verifPoint("session.reserved")
 
 	// create transaction
 	txn, err := s.engine.Begin(ctx, true)
+	verifPoint("session.begun")
 
 	// finalize under the lock; always clear the starting flag
 	s.mutex.Lock()
